@@ -48,6 +48,7 @@ func runC17(c *core.Ctx) {
 	h.followerTimerProtocol("C17.2b timer-protocol")
 	c.Clause("C17.3 Raft.leader is written only through setLeader")
 	h.onlyWriters("C17.3 who-may-write", "raft:Raft.leader", "(*Raft).setLeader")
+	h.leaderHintProtection("C17.3b leader-hint")
 	c.Clause("C17.4 (necessary condition of catch-up only, not liveness) a rejected probe strictly lowers nextIndex; a compacted entry leads to snapshot installation")
 	h.probeBackoffProgress("C17.4 probe-backoff")
 	h.snapshotFallback("C17.4b snapshot-fallback")
@@ -61,4 +62,5 @@ func runC17(c *core.Ctx) {
 	h.leaderCommitSkipJustified("C17.6c leader-commit-skip-justified")
 	h.configActionProgress("C17.9 membership-progress", "progress")
 	h.commitReadyReevaluates("C17.9b commit-ready-reevaluates")
+	h.replicationLearnsConfig("C17.11 replication-learns-config")
 }
